@@ -124,6 +124,8 @@ type Exec struct {
 	Truncated    bool
 	StoppedEarly bool
 	Deadline     time.Time
+	FailGrace    time.Duration // exploration continues this long after the first recorded failure (0 = to the end)
+	firstFail    time.Time
 	Merged       map[string]int
 	Unmerged     map[string]int
 }
@@ -195,6 +197,10 @@ func (e *Exec) Explore(fn *ssa.Function) {
 			return
 		}
 		if e.Deadline != (time.Time{}) && time.Now().After(e.Deadline) {
+			e.Truncated = true
+			return
+		}
+		if e.FailGrace > 0 && len(e.Failures) > 0 && time.Since(e.firstFail) > e.FailGrace {
 			e.Truncated = true
 			return
 		}
@@ -560,6 +566,9 @@ func (e *Exec) recordFailure(kind, assertID, site, msg, pos string, extra *Term)
 	if v != Sat {
 		e.Inconclusive = append(e.Inconclusive, fmt.Sprintf("%s: no model for %s %s at %s (%v)", e.harness, kind, assertID, site, v))
 		return
+	}
+	if len(e.Failures) == 0 {
+		e.firstFail = time.Now()
 	}
 	e.Failures = append(e.Failures, Failure{Harness: e.harness, AssertID: assertID, Kind: kind, Site: site, Msg: msg, Model: e.cleanModel(m), Pos: pos})
 }
@@ -1906,6 +1915,9 @@ func (e *Exec) builtin(fr *Frame, ins ssa.Instruction, name string, args []Value
 		case MapV:
 			if x.M == nil {
 				return tf.Int(0)
+			}
+			if e.curFoot != nil {
+				e.curFoot.readMap(x.M) // len(m) reads the map header: it races with a concurrent insert
 			}
 			return tf.Int(int64(len(x.M.Keys)))
 		case ArrayV:
